@@ -1017,6 +1017,55 @@ fn run_op(a: &[&str]) -> R {
             };
             format!("{} {}", eo, dout)
         }
+        ["hdr.steps", exp, k] => {
+            // full step table of the recurrence ciphers: every position x every previous byte x every input byte,
+            // both directions; states are reached by priming traffic, each input byte is tried on a clone
+            let k: [u8; 40] = arr(k)?;
+            let base = hdr_new(exp, "s", k)?;
+            rand::verif_inject(&[]);
+            let _ = rand::verif_take_log();
+            let l: usize = if *exp == "v" { 40 } else { 20 };
+            let mut h = FNV_INIT;
+            let mut n = 0u64;
+            for pos in 0..l {
+                for prev in 0..256usize {
+                    if pos == 0 && prev != 0 { continue; }
+                    // encrypter: find priming plaintext whose last ciphertext byte is `prev`
+                    let mut e = base.clone();
+                    if pos > 0 {
+                        let mut prime = vec![0u8; pos - 1];
+                        e.enc(&mut prime, false);
+                        let mut found = false;
+                        for x in 0..256usize {
+                            let mut c = e.clone();
+                            let mut b = [x as u8];
+                            c.enc(&mut b, false);
+                            if b[0] as usize == prev { e = c; found = true; break; }
+                        }
+                        if !found { return Err("bad-op".into()); }
+                    }
+                    // decrypter: any ciphertext ending in `prev`
+                    let mut d = base.clone();
+                    if pos > 0 {
+                        let mut prime = vec![0u8; pos];
+                        prime[pos - 1] = prev as u8;
+                        d.dec(&mut prime, false);
+                    }
+                    for x in 0..256usize {
+                        let mut c = e.clone();
+                        let mut b = [x as u8];
+                        c.enc(&mut b, false);
+                        h = fnv_step(h, b[0]);
+                        let mut c = d.clone();
+                        let mut b = [x as u8];
+                        c.dec(&mut b, false);
+                        h = fnv_step(h, b[0]);
+                        n += 1;
+                    }
+                }
+            }
+            format!("fnv {:016x} n={}", h, n)
+        }
         ["w.sweep", k, lo, hi, opc] => {
             let k: [u8; 40] = arr(k)?;
             let (lo, hi, opc): (u32, u32, u16) = (num(lo)?, num(hi)?, num(opc)?);
